@@ -28,6 +28,8 @@ CONSTANTS Series, Times, Versions,   \* small sets of naturals
           MaxTotal,                  \* rows overall
           MaxOps,
           RowTags,                   \* [id -> [a, b, arr]]  (defined in the MC module)
+          TagsBySeries,              \* TRUE: the queried tags are a function of the series (measure: indexed tags are
+                                     \* series-level attributes by documented contract); FALSE: of the row
           Queries                    \* set of query records  (defined in the MC module)
 
 VARIABLES acked,    \* set of rows [id, s, t, v, batch]
@@ -95,7 +97,7 @@ Merge(S) ==              \* any subset of the file parts, any fan-in
 
 \* ---- queries -----------------------------------------------------------
 \* leaf = [op, tag, v]; v is a set of integers (a singleton for the binary comparisons)
-TagVal(r, tag) == RowTags[r.id][tag]
+TagVal(r, tag) == IF TagsBySeries THEN RowTags[r.s][tag] ELSE RowTags[r.id][tag]
 Only(S) == CHOOSE x \in S : TRUE
 SatLeaf(r, c) ==
   CASE c.op = "true"   -> TRUE
